@@ -159,26 +159,31 @@ def render_dep(rels, sym, mode, double=None):
     return text, dump, sl.k
 
 
-def mk_alt(sym, spec, L):
-    """spec: dict(kind, qual, order=[...], op, narch, neg, profs)"""
+HIGH = bytes(range(0x80, 0x100))
+
+
+def mk_alt(sym, spec, L, hi=None):
+    """spec: dict(kind, qual, order=[...], op, narch, neg, profs); hi names the leaf kind drawn from bytes >= 0x80"""
+    def alph(kind, first, rest):
+        return (HIGH, HIGH) if hi == kind else (first, rest)
     if spec['kind'] == 'subst':
-        return dict(kind='subst', name=sym.leaf(spec.get('n', L), LOW + b'ABCDEFGHIJKLMNOPQRSTUVWXYZ', LOW + b'ABCDEFGHIJKLMNOPQRSTUVWXYZ:-'))
-    alt = dict(kind='pkg', name=sym.leaf(spec.get('n', L), LOW, NAMEC), clauses=[])
+        return dict(kind='subst', name=sym.leaf(spec.get('n', L), *alph('subst', LOW + b'ABCDEFGHIJKLMNOPQRSTUVWXYZ', LOW + b'ABCDEFGHIJKLMNOPQRSTUVWXYZ:-')))
+    alt = dict(kind='pkg', name=sym.leaf(spec.get('n', L), *alph('name', LOW, NAMEC)), clauses=[])
     q = spec.get('qual')
     if q == 'sym':
-        alt['qual'] = sym.leaf(L, LOW, LOW)
+        alt['qual'] = sym.leaf(L, *alph('qual', LOW, LOW))
     elif q:
         alt['qual'] = q
     for c in spec.get('order', ()):
         if c == 'ver':
             op = B(b'=') if spec.get('op', 'e') == '=' else sym.op2(spec.get('op', 'e'))
-            alt['clauses'].append(('ver', op, sym.leaf(L, DIGITS, VERC)))
+            alt['clauses'].append(('ver', op, sym.leaf(L, *alph('ver', DIGITS, VERC))))
         elif c == 'arch':
             names = spec['archs']
-            alt['clauses'].append(('arch', spec.get('neg', False), [sym.leaf(L, LOW, LOW) if n == 'sym' else n for n in names]))
+            alt['clauses'].append(('arch', spec.get('neg', False), [sym.leaf(L, *alph('arch', LOW, LOW)) if n == 'sym' else n for n in names]))
         else:
             ents = spec['profs'][int(c[1:])]
-            alt['clauses'].append(('prof', [(neg, sym.leaf(L, LOW, LOW + b'.+-')) for neg in ents]))
+            alt['clauses'].append(('prof', [(neg, sym.leaf(L, *alph('prof', LOW, LOW + b'.+-'))) for neg in ents]))
     return alt
 
 
@@ -208,12 +213,13 @@ def single_specs():
 
 
 def multi_specs():
-    simple = [dict(kind='pkg', order=[]), dict(kind='pkg', order=['ver']), dict(kind='subst', n=1), dict(kind='pkg', qual=b'any', order=['arch'], archs=['sym'])]
+    simple = [dict(kind='pkg', order=[]), dict(kind='pkg', order=['ver']), dict(kind='subst', n=1), dict(kind='pkg', qual=b'any', order=['arch'], archs=['sym']),
+              dict(kind='pkg', qual='sym', order=[]), dict(kind='pkg', qual=b'any', order=[])]
     out = []
     for shape in ((1, 1), (2,), (2, 1), (1, 2), (2, 2)):
         n = sum(shape)
         for combo in itertools.product(range(len(simple)), repeat=n):
-            if n >= 3 and sum(combo) % 3:      # thin out the larger products deterministically
+            if n >= 3 and sum(combo) % 4:      # thin out the larger products deterministically
                 continue
             it = iter(combo)
             out.append([[simple[next(it)] for _ in range(k)] for k in shape])
